@@ -1,24 +1,41 @@
 from pyvc.runner import Prop, Fn, Lem, Ground, Native
 
 _P = 'hpl.ast.properties.HplProperty.'
+EXPR = ['HplSet', 'HplRange', 'HplLiteral', 'HplThisMessage', 'HplVarReference', 'HplQuantifier',
+        'HplUnaryOperator', 'HplBinaryOperator', 'HplFunctionCall', 'HplFieldAccess', 'HplArrayAccess']
 
 PROP = Prop(
     'C02',
-    modules=['contracts.sanity_c02'],
+    modules=['contracts.sanity_c02', 'contracts.events_c02'],
     tasks=[
         Fn(_P + '_check_refs_defined', safety_tag='C02'),
         Fn(_P + '_check_duplicates', safety_tag='C02'),
         Fn(_P + '__init__', safety_tag='C02'),
+        Fn('hpl.ast.events.HplEventDisjunction.__init__', safety_tag='C02'),
+        Lem('concat_nth'), Lem('alts_are_simple'),
+        # the queries the acceptance rule is computed from (callee contracts of the chain above)
+        *[Fn('hpl.ast.events.HplEvent.' + m, classes=['HplSimpleEvent', 'HplEventDisjunction'], safety_tag='C02')
+          for m in ('aliases', 'external_references')],
+        *[Fn('hpl.ast.predicates.HplPredicate.external_references', classes=['HplPredicateExpression',
+                                                                             'HplVacuousTruth', 'HplContradiction'],
+             safety_tag='C02')],
+        *[Fn('hpl.ast.expressions.HplExpression.external_references', classes=EXPR, safety_tag='C02')],
     ],
+    dep_tags=['C15'],
     bounded=[
         Native('bounded.c02_native.sane_grid'),
+        Native('bounded.native_tasks.contracts_on_events', modules=['contracts.queries_c15_events'],
+               qualnames=['hpl.ast.predicates.HplPredicate.external_references', 'hpl.ast.events.HplEvent.external_references',
+                          'hpl.ast.events.HplEvent.aliases']),
+        Native('bounded.c02_native.quantifier_hygiene'),
+        Native('bounded.c02_native.channel_grid'),
     ],
     assumptions=[
         'A-ATTRS: the attrs-generated __init__ text (read from linecache on every run) is what runs; it ends in __attrs_post_init__ -> sanity_check',
         'event/predicate query contracts (C15) are used at the call sites (proved there)',
-        'clause (iii) duplicate channels and (iv) quantifier hygiene are enforced by the constructors of HplEventDisjunction / HplQuantifier: covered here by the bounded grid only (proof of those two constructors not built yet)',
+        'clause (iv) quantifier hygiene is enforced by the constructor of HplQuantifier: covered here by the bounded checks only (proof of that constructor is part of C03-C05 work)',
         'reading: two alternatives of one disjunction binding the same alias are not a re-binding (DESIGN section 6, C02)',
     ],
-    explanation='HplProperty construction (generated __init__ -> sanity_check -> helpers) raises HplSanityError iff not sane(scope, pattern), proved for all scopes/patterns/events; clauses (iii)/(iv) bounded',
+    explanation='HplProperty construction (generated __init__ -> sanity_check -> helpers) raises HplSanityError iff not sane(scope, pattern), proved for all scopes/patterns/events; clause (iii): HplEventDisjunction construction raises iff a channel repeats (loop invariant); clause (iv) bounded',
     trusted_base=['z3 5.1.0', 'cvc5 1.0.3', 'pyvc symbolic executor', 'attrs 24.3 generated __init__'],
 )
